@@ -533,10 +533,18 @@ class PerformSpatiallyAdaptiv(Contract):
         s.entry_point_call = True
         s.fields["ghost_init"] = 0
         op = lambda n: Opaque(S.const(n, P.U))  # noqa
+        # whatever an earlier run left in the object (options, cached solution, interpolation-error histories)
+        for k in ("test_scheme", "do_plot", "single_step", "print_output", "recalculate_frequently"):
+            s.fields[k] = S.bool(k + "_before")
+        for k in ("errorEstimator", "solutions_storage", "evaluation_points", "calculated_solution"):
+            s.fields[k] = op(k + "_before")
+        s.fields["interpolation_error_arrayL2"] = S.seq("ieL2_before", S.int("len_ieL2"), R)
+        s.fields["interpolation_error_arrayMax"] = S.seq("ieMax_before", S.int("len_ieMax"), R)
         return {"self": s, "lmin": op("lmin_arg"), "lmax": op("lmax_arg"), "errorOperator": op("errorOperator"), "tol": S.real("tol"), "refinement_container": None,
-                "do_plot": False, "recalculate_frequently": S.bool("recalculate_frequently"), "test_scheme": False, "reevaluate_at_end": S.bool("reeval_arg"),
-                "max_time": None, "max_evaluations": None, "print_output": False, "min_evaluations": S.int("min_evaluations"), "solutions_storage": None,
-                "evaluation_points": None, "single_step": False}
+                "do_plot": S.bool("do_plot_arg"), "recalculate_frequently": S.bool("recalculate_frequently"), "test_scheme": S.bool("test_scheme_arg"),
+                "reevaluate_at_end": S.bool("reeval_arg"), "max_time": None, "max_evaluations": None, "print_output": S.bool("print_output_arg"),
+                "min_evaluations": S.int("min_evaluations"), "solutions_storage": op("solutions_storage_arg"),
+                "evaluation_points": op("evaluation_points_arg"), "single_step": S.bool("single_step_arg")}
 
     def post_raise(self, S, old, env, exc_name):
         if exc_name != "AssertionError":
@@ -558,7 +566,18 @@ class PerformSpatiallyAdaptiv(Contract):
         return [Cl("a-refused-request-keeps-the-history-of-the-previous-run", z3.And(*same) if same else z3.BoolVal(True), prop=True)]
 
     def post(self, S, old, env, result):
-        return [Cl("returns-what-the-driver-loop-returns", isinstance(result, Opaque), prop=False)]
+        f = env["self"].fields
+        same = lambda a_, b_: (a_ is b_) or (isinstance(a_, Opaque) and isinstance(b_, Opaque) and a_.term is b_.term) or (not isinstance(a_, Opaque) and not isinstance(b_, Opaque) and (a_ is b_ or (z3.is_expr(a_) and z3.is_expr(b_) and a_.eq(b_))))  # noqa
+        stored = [("errorEstimator", "errorOperator"), ("recalculate_frequently", "recalculate_frequently"), ("print_output", "print_output"), ("test_scheme", "test_scheme"),
+                  ("reevaluate_at_end", "reevaluate_at_end"), ("do_plot", "do_plot"), ("solutions_storage", "solutions_storage"), ("evaluation_points", "evaluation_points"),
+                  ("single_step", "single_step")]
+        ok = all(k in f and same(f[k], old[a_]) for k, a_ in stored)
+        fresh = all(isinstance(f.get(k), Seq) and f[k].concrete and len(f[k].items) == 0 for k in ("interpolation_error_arrayL2", "interpolation_error_arrayMax")) \
+            and f.get("calculated_solution", 0) is None
+        return [Cl("returns-what-the-driver-loop-returns", isinstance(result, Opaque), prop=False),
+                Cl("the-options-of-the-request-are-the-options-of-the-run", ok),
+                Cl("the-reference-of-the-run-is-the-operation's-reference", isinstance(f.get("reference_solution"), Opaque) and str(f["reference_solution"].term).startswith("reference_solution")),
+                Cl("interpolation-error-histories-and-cached-solution-start-empty", fresh)]
 
     @staticmethod
     def model_to_input(model):
